@@ -202,7 +202,12 @@ structure LState (K : Type) where
 
 abbrev Includes (K : Type) := List (String × (String × Program K))
 
-def sortInts (l : List Int) : List Int := l.mergeSort (fun a b => a ≤ b)
+def insertSorted (x : Int) : List Int → List Int
+  | [] => [x]
+  | y :: ys => if x ≤ y then x :: y :: ys else y :: insertSorted x ys
+
+/-- insertion sort (structural, so that concrete instances reduce in the kernel) -/
+def sortInts (l : List Int) : List Int := l.foldr insertSorted []
 
 def dedupInts : List Int → List Int
   | [] => []
@@ -214,15 +219,18 @@ def modeSet (l : List Int) : List Int := sortInts (dedupInts l)
 /-- The order in which Python happens to iterate a set (it depends on hashing, hence on
 PYTHONHASHSEED): an arbitrary permutation of the elements. Every place where the code iterates
 a set takes one of these, and C19's theorems quantify over all of them. -/
-structure SetOrder where
-  perm : List Int → List Int
+structure SetOrder (α : Type) where
+  perm : List α → List α
   isPerm : ∀ l, (perm l).Perm l
 
 /-- the identity order, used by the executable driver -/
-def SetOrder.id : SetOrder := ⟨fun l => l, fun l => List.Perm.refl l⟩
+def SetOrder.id {α : Type} : SetOrder α := ⟨fun l => l, fun l => List.Perm.refl l⟩
 
 /-- `sorted(bb.modes)` where `bb.modes` is a Python set iterated in the order `o` -/
-def sortedModes (o : SetOrder) (modes : List Int) : List Int := sortInts (o.perm (dedupInts modes))
+def sortedModes (o : SetOrder Int) (modes : List Int) : List Int := sortInts (o.perm (dedupInts modes))
+
+/-- equality of two lists as sets of names (`bb.parameters != set(kwargs)`) -/
+def sameSet (a b : List String) : Bool := a.all (b.contains ·) && b.all (a.contains ·)
 
 /-- wrap symbolic arguments that mention a non-parameter symbol as register transforms -/
 def wrapRRT (params : List PEntry) (v : Val K) : Val K :=
@@ -243,7 +251,7 @@ def lookupMode (m : List (Int × Int)) (j : Int) : Except Err Int :=
   | none => .error .key
 
 /-- `exitStatement` (also used to replay loop bodies) -/
-def execStmt (o : SetOrder) (incs : Includes K) (st : LState K) (s : Stmt) : LRes K (LState K) := do
+def execStmt (o : SetOrder Int) (incs : Includes K) (st : LState K) (s : Stmt) : LRes K (LState K) := do
   let T := st.tables
   let modes ← liftE T (s.modes.mapM (evalMode T))
   let st := { st with modes := st.modes ++ modes }
@@ -265,7 +273,7 @@ def execStmt (o : SetOrder) (incs : Includes K) (st : LState K) (s : Stmt) : LRe
       let bb ← match args with
         | some (_, kw) =>
           if !bb.isTemplate then .error (.value, T)
-          else if (bb.paramSet.mergeSort (· ≤ ·)) ≠ ((dedupStr (kw.map (·.1))).mergeSort (· ≤ ·)) then
+          else if !(sameSet bb.paramSet (kw.map (·.1))) then
             .error (.value, T)
           else liftE T (instantiate bb kw)
         | none => if bb.isTemplate then .error (.value, T) else pure bb
@@ -314,7 +322,7 @@ def castLoopVal (ty : VarType) (v : Val K) : Except Err (Val K) :=
 
 /-- convert one loop value, bind the variable, replay the body; value by value (an early
 value's body runs before a later value is converted) -/
-def execLoopVals (o : SetOrder) (incs : Includes K) (ty : VarType) (x : String) (body : List Stmt) :
+def execLoopVals (o : SetOrder Int) (incs : Includes K) (ty : VarType) (x : String) (body : List Stmt) :
     List (Val K) → LState K → LRes K (LState K)
   | [], st => .ok st
   | v :: vs, st => do
@@ -337,7 +345,7 @@ def LoopHeader.pars : LoopHeader → List String
   | .list _ vs _ => vs.flatMap ArgVal.pars
 
 /-- `exitForloop` (repaired: an empty loop does not fail on deleting its variable) -/
-def execLoop (o : SetOrder) (incs : Includes K) (st : LState K) (ty : VarType) (x : String) (h : LoopHeader)
+def execLoop (o : SetOrder Int) (incs : Includes K) (st : LState K) (ty : VarType) (x : String) (h : LoopHeader)
     (body : List Stmt) : LRes K (LState K) := do
   let T := st.tables
   let T' : Tables K := { T with params := T.params ++ h.pars.map .sym }
@@ -429,7 +437,7 @@ def execArr (tdm : Bool) (st : LState K) (ty : VarType) (pos : Pos) (n : VName)
                       else .ok (finish T' (.arr (if parsHere.isEmpty then dt else .object) nr nc (crows.flatMap id)))
           | none => .ok (finish T' (.arr (if parsHere.isEmpty then dt else .object) nr nc (crows.flatMap id)))
 
-def execItem (o : SetOrder) (tdm : Bool) (incs : Includes K) (st : LState K) : Item → LRes K (LState K)
+def execItem (o : SetOrder Int) (tdm : Bool) (incs : Includes K) (st : LState K) : Item → LRes K (LState K)
   | .var ty n init => execVar st ty n init
   | .arr ty pos n shape body => execArr tdm st ty pos n shape body
   | .stmt s => execStmt o incs st s
@@ -516,7 +524,7 @@ def includeStep (fs : FS)
 /-- walk one parse tree with a fresh listener whose directory is `cwd`, starting from
 tables `T` (shared module state); returns the program, the tables afterwards and the
 listener's include dictionary. The fuel bounds the include depth. -/
-def runScript (o : SetOrder) (fs : FS) : Nat → String → Tables K → Script →
+def runScript (o : SetOrder Int) (fs : FS) : Nat → String → Tables K → Script →
     LRes K (Program K × Tables K × Includes K)
   | 0, _, T, _ => .error (.ood "include depth", T)
   | fuel + 1, cwd, T, sc => do
@@ -540,7 +548,7 @@ def runScript (o : SetOrder) (fs : FS) : Nat → String → Tables K → Script 
          Tables.empty, incs)
 
 /-- `parse()` as repaired: the tables are cleared before anything is evaluated -/
-def loadStep (o : SetOrder) (fs : FS) (cwd : String) (T : Tables K) (sc : Script) :
+def loadStep (o : SetOrder Int) (fs : FS) (cwd : String) (T : Tables K) (sc : Script) :
     Except Err (Program K) × Tables K :=
   -- `T` is what earlier loads left behind; it is discarded here
   let _ := T
